@@ -38,6 +38,7 @@ import GraphiqModel.Proofs.MetricsHistLongest
 import GraphiqModel.Proofs.MetricsHistChain
 import GraphiqModel.Proofs.MetricsHistIso
 import GraphiqModel.Proofs.MetricsHistEdits
+import GraphiqModel.Proofs.MetricsHistInsert
 import GraphiqModel.Properties.C12
 namespace Graphiq.C18
 open Graphiq Graphiq.Dag Graphiq.Metrics
@@ -460,6 +461,29 @@ theorem metrics_after_replace_op {c : Dag} {P : Reg → List NodeId} {L : List (
     · rw [if_neg h]; exact (hS.wf_plain g hpl p.2 (List.mem_map.mpr ⟨p, hpL, rfl⟩)).2
   have := metrics_eq_spec_on_any_schedule g' hpl' hS'
   rwa [hmap] at this
+
+/-- **`insert_at(op, edges)` = insert into the operation list**: when the call succeeds (well-formed edges), there are operation
+    lists `A`, `B` such that `A ++ B` is the operation list of a schedule of the circuit before, and all metrics afterwards equal the
+    specifications on `A ++ [op on its quantum registers] ++ B` — `insert_at` threads the new node on the quantum wires of the given
+    edges only, so its `c_registers` create no dependency (`quantumPart`) -/
+theorem metrics_after_insert_at {c : Dag} {P : Reg → List NodeId} (g : Good c P) (hpl : AllPlain c) {op : Op} (hop : OpWF op)
+    (hp : PlainOp' op) {es : List Edge} (hok : InsertOK c op es) (hsucc : (c.insertAt op es).2 = none) :
+    ∃ (A B : List Op) (L : List (NodeId × Op)), Sched c P L ∧ L.map (·.2) = A ++ B ∧
+      MetricsMeetSpec (c.insertAt op es).1 (A ++ quantumPart op :: B) := by
+  obtain ⟨P', A, B, L, n, g', hS', hS, hmap⟩ := insertAt_sched_gen g hop hok hsucc
+  refine ⟨A.map (·.2), B.map (·.2), L, hS, hmap, ?_⟩
+  have hLpl := hS.wf_plain g hpl
+  have hpl' : AllPlain (c.insertAt op es).1 := by
+    apply allPlain_of_schedule hS'
+    intro o ho
+    rw [List.map_append, List.map_cons] at ho
+    rcases List.mem_append.mp ho with ho | ho
+    · exact (hLpl o (by rw [hmap]; exact List.mem_append.mpr (Or.inl ho))).2
+    · rcases List.mem_cons.mp ho with rfl | ho
+      · exact { labels := hp.labels, arity := hp.arity, inner_base := hp.inner_base }
+      · exact (hLpl o (by rw [hmap]; exact List.mem_append.mpr (Or.inr ho))).2
+  have := metrics_eq_spec_on_any_schedule g' hpl' hS'
+  simpa using this
 
 /-! ### the rewrites act on the specification's operation list -/
 
